@@ -419,6 +419,39 @@ def k16(rep):
                       "used to be rejected with `memory exhausted` and exit status 1" % (val, PARSER_DEPTH_CONFIRMED))
 
 
+def k17(rep):
+    """The scanner's cursor (line buffer scLine, index scLineIndex, column scLineChar) is moved by one primitive, scAdvance0 (the
+    macro behind scAdvance, scSkipSpace, scAdvance1): besides stepping the index and the column it is the only place that notices
+    the end of a line's text and moves on to the next source line (or to end of input).  A function that steps the index by hand
+    stops on the NUL ending the last line of an included file that has no final newline, the scanner returns `end of input`,
+    and everything after the #include is silently ignored -- an invalid program gets no diagnostic.  Every write of the three
+    cursor variables in scan.c therefore comes from an expansion of scAdvance0 or sits in the line-start routines."""
+    f = common.extract("scan.c", all_trees=True)
+    START = ("scStartLine", "scStart", "scEnd")
+    n = 0
+    for name, fn in sorted(f.funcs.items()):
+        if "body" not in fn or not fn.get("file", "").endswith("scan.c"):
+            continue
+        for x in walk(fn["body"]):
+            t = None
+            if x["k"] in ("BinaryOperator", "CompoundAssignOperator") and x["op"].endswith("=") and x["op"] not in ("==", "!=", "<=", ">="):
+                t = strip(x["c"][0])
+            elif x["k"] == "UnaryOperator" and x["op"] in ("++", "post++", "--", "post--"):
+                t = strip(x["c"][0])
+            if t is None or t["k"] != "DeclRefExpr" or t["n"] not in ("scLineIndex", "scLineChar", "scLine"):
+                continue
+            n += 1
+            key = "cursor-moved-by-primitive:%s:%s" % (name, t["n"])
+            if "scAdvance0" in (x.get("mac"), x.get("imac")) or name in START:
+                rep.ok("K17", key + "@%d" % x["l"], nontrivial=False)
+            else:
+                rep.violation("K17", key, "scan.c:%d (%s)" % (x["l"], name),
+                              "%s is changed outside scAdvance0 and the line-start routines: the step to the next source line at the "
+                              "end of a line's text (and with it the end-of-input test) is bypassed; text collected this way up to "
+                              "the end of an included file without a final newline ends the scan of the whole program" % t["n"])
+    rep.floor("writes of the scanner's cursor", n, 60)
+
+
 def both_digest(f):
     return {"k1": k1_digest(f), "exits": exits_digest(f), "k8": k8_digest(f)}
 
@@ -936,6 +969,7 @@ def run(tier, only=None):
     k12(rep)
     k13(rep)
     k16(rep)
+    k17(rep)
     from . import variant_dispatch
     variant_dispatch.report_absyn(rep, "K14", ["abnorm.c", "macex.c"], 15)
     from . import variadic
